@@ -85,14 +85,14 @@ def try_patch(patch, prop, secs=None, scan_all=False):
         rc, out = sh("cargo build --release --offline 2>&1 | tail -3", SIM)
         if rc != 0 or "error" in out:
             summary["build"] = out
-        own = run_check(prop, secs or "", outdir) if secs else run_check(prop, "", outdir)
+        own = run_check(prop, secs or 15, outdir)
         summary["own"] = own
         if scan_all:
             others = {}
             for pid in IDS:
                 if pid == prop:
                     continue
-                r = run_check(pid, 6, outdir)
+                r = run_check(pid, 5, outdir)
                 if r["exit"] != 0:
                     others[pid] = {"exit": r["exit"], "violations": r["violations"], "clauses": [c[:160] for c in r["clauses"]], "harness": r["harness"]}
             summary["others_alarmed"] = others
